@@ -348,12 +348,13 @@ func c04Funcs(sig []int, rec *c04Call) (plain interface{}, fast interface{}) {
 }
 
 type c04Case struct {
-	Config c04Config `json:"config"`
-	What   string    `json:"what"` // "value" | "invoke" | "apply"
-	Target int       `json:"target_type,omitempty"`
-	Sig    []int     `json:"signature,omitempty"`
-	Fast   bool      `json:"fast_invoker,omitempty"`
-	Hist   []c04HOp  `json:"history,omitempty"`
+	Config c04Config      `json:"config"`
+	What   string         `json:"what"` // "value" | "invoke" | "apply"
+	Target int            `json:"target_type,omitempty"`
+	Sig    []int          `json:"signature,omitempty"`
+	Fast   bool           `json:"fast_invoker,omitempty"`
+	Hist   []c04HOp       `json:"history,omitempty"`
+	Sealed *c04SealedCase `json:"second_universe_case,omitempty"`
 }
 
 func c04CheckValue(c c04Config, ti int) string {
@@ -857,7 +858,7 @@ func c04Run(r *core.Run) {
 	if r.Thorough() {
 		r.SetBudget(10 * time.Minute)
 	}
-	r.Rule = "engine E: every presence assignment of 7 types (struct, pointer, second struct, named string, send-only channel via Set, interface I with two implementors, interface J) to 1..3 nested injectors x every target type for Value(); every signature of arity 0..2 x every 1- and 2-scope assignment (thorough: and a grid of the 3-scope ones) for Invoke() through reflect.MakeFunc functions and hand-declared FastInvoker types; Apply() on two struct targets; registration API {Map/MapTo, Set} x {once, re-registered} x {values, typed nil pointer / nil channel in the innermost scope}; oracle = reference resolver (exact in nearest scope, else the SET of same-scope implementors, else outer); non-trivial = resolution that needs an outer scope or an implementor, or fails"
+	r.Rule = "engine E: every presence assignment of 7 types (struct, pointer, second struct, named string, send-only channel via Set, interface I with two implementors, interface J) to 1..3 nested injectors x every target type for Value(); every signature of arity 0..2 x every 1- and 2-scope assignment (thorough: and a grid of the 3-scope ones) for Invoke() through reflect.MakeFunc functions and hand-declared FastInvoker types; Apply() on two struct targets; registration API {Map/MapTo, Set} x {once, re-registered} x {values, typed nil pointer / nil channel in the innermost scope}; a second universe of interfaces and implementors with unexported methods only (sealed interfaces, pointer receivers, a func type, an interface implied by another) over 1-2 scopes; oracle = reference resolver (exact in nearest scope, else the SET of same-scope implementors, else outer); non-trivial = resolution that needs an outer scope or an implementor, or fails"
 	r.Assumptions = []string{"reflect.Type.Implements is trusted for the 'implements' relation", "which of several same-scope implementors is picked is free (map order): membership in the set is checked"}
 	sigs := c04Signatures()
 	r.Bounds["types"] = c04Names
@@ -976,6 +977,7 @@ func c04Run(r *core.Run) {
 	// phase C: histories on live injectors - registrations and resolutions interleaved (a resolution
 	// must not change what later registrations mean)
 	c04Histories(r)
+	c04SealedPhase(r)
 	fl := core.NewLocal()
 	c04Flame(fl)
 	c04FlameRebind(fl)
@@ -989,6 +991,13 @@ func c04Replay(raw json.RawMessage) (bool, string) {
 		return false, err.Error()
 	}
 	switch c.What {
+	case "sealed":
+		for i := 0; i < 50; i++ {
+			if b := c04SealedCheck(*c.Sealed); b != "" {
+				return true, b
+			}
+		}
+		return false, ""
 	case "value":
 		// implementor choice is map-order dependent: try several times
 		for i := 0; i < 50; i++ {
